@@ -739,6 +739,15 @@ func runC09(c *CaseCtx) (res CaseResult) {
 			case 1:
 				ropts = append(ropts, am.FilterInput(inputTypesFilter(&s)))
 			}
+			if (c.Idx/8)%3 == 1 {
+				// an output filter as well (a random type subset): whether or
+				// not the target's outputs pass it, and whether or not some
+				// converter could map them to a type that does, planning
+				// runs nothing
+				fo, _ := randomFilter(r)
+				ropts = append(ropts, am.FilterOutput(fo))
+				res.obs("redefines_with_an_output_filter", 1)
+			}
 			o := DoRedefine(in1.W, in1.Target.Func, ropts)
 			res.Evals++
 			res.obs("redefines", 1)
